@@ -1083,3 +1083,67 @@ def bool_explore(body, starts, stop_blocks, atom_calls, max_paths=4096):
     for s0 in starts:
         run(s0, {}, {}, [])
     return out
+
+
+def _sccs_on(body, nodes):
+    """SCCs (with a cycle) of the sub-graph induced by `nodes`."""
+    sc = all_succ(body)
+    nodes = set(nodes)
+    index, low, onstack, st, out = {}, {}, set(), [], []
+    counter = [0]
+    for root in sorted(nodes):
+        if root in index:
+            continue
+        work = [(root, 0)]
+        while work:
+            v, pi = work.pop()
+            if pi == 0:
+                index[v] = low[v] = counter[0]
+                counter[0] += 1
+                st.append(v)
+                onstack.add(v)
+            recurse = False
+            ss = [w for w in sc[v] if w in nodes]
+            for i in range(pi, len(ss)):
+                w = ss[i]
+                if w not in index:
+                    work.append((v, i + 1))
+                    work.append((w, 0))
+                    recurse = True
+                    break
+                elif w in onstack:
+                    low[v] = min(low[v], index[w])
+            if recurse:
+                continue
+            if low[v] == index[v]:
+                comp = set()
+                while True:
+                    w = st.pop()
+                    onstack.discard(w)
+                    comp.add(w)
+                    if w == v:
+                        break
+                if len(comp) > 1 or v in sc[v]:
+                    out.append(comp)
+            if work:
+                u = work[-1][0]
+                low[u] = min(low[u], low[v])
+    return out
+
+
+def loop_nest(body):
+    """Every loop of the body, outer and inner: the SCCs, and recursively the SCCs that remain inside each of them once its
+    header blocks (entered from outside) are removed.  Returns a list of block sets, outer loops before their inner ones."""
+    preds = all_pred(body)
+    out = []
+
+    def rec(comp, depth):
+        out.append(comp)
+        if depth > 4:
+            return
+        headers = {x for x in comp if any(p not in comp for p in preds[x])} or {min(comp)}
+        for inner in sorted(_sccs_on(body, comp - headers), key=min):
+            rec(inner, depth + 1)
+    for c in sorted(sccs(body), key=min):
+        rec(c, 0)
+    return out
